@@ -22,6 +22,7 @@ CHECKS = {
     'C08': 'harness.c08',
     'C10': 'harness.c10',
     'C12': 'harness.c12',
+    'C19': 'harness.c19',
 }
 
 
